@@ -121,6 +121,12 @@ CHECKS = {
         text='A state is the reference model (ordered list of (path, attributes, group path) plus saved/reloaded status); each transition calls the real writer operation; in every state the Document\'s own paths() must show exactly the modelled paths, and after every save all three readers (svg2paths, Document, SaxDocument) must return the same paths (absolute-form equality of C01) with the supplied attributes. wsvg is checked on the full product of its alphabet including fresh sub-directories and file names with spaces.',
         note='Trusted: the list-of-paths reference model; private temporary directory per run. Depth 4 (quick) / 5 (thorough) over 9 operations.',
         design='4/C18'),
+    'C20': dict(
+        level='exploration',
+        technique='bounded-exhaustive enumeration of turtle-generated line/cubic paths (type pattern x corner angles x segment lengths x open/closed x maxjointsize/tightness grids) with an independent kink test, end-point/closure test and dense distance test',
+        text='Every path of the grid is smoothed by the real smoothed_path; the result must be continuous (== at joints), free of kinks by an independent control-polygon tangent test (1e-6 rad) and by the library\'s own kinks(), keep its end points (open) or stay closed (closed, closing joint included), stay within maxjointsize of the input (dense samples against 400-chord polylines) and leave already-smooth joints in place; a single-segment path is returned unchanged.',
+        note='Trusted: point() and bpoints() of the result. 180-degree reversals are excluded by the property.',
+        design='4/C20'),
 }
 
 NOT_YET = {}
